@@ -5,13 +5,14 @@ import (
 	"go/token"
 	"go/types"
 	"reflect"
+	"regexp"
 	"strings"
 
 	"golang.org/x/tools/go/ssa"
 )
 
 func init() {
-	props["C03"] = &propDef{run: runC03, explanation: "Structural clause of C03 decided statically: in ParseCreateOperation the returned unique suffix is GetUniqueSuffix applied to the very suffix-data object that was decoded from the request (json.Unmarshal target, hence independent of member order and whitespace), validated and stored in the model; the success term of GetUniqueSuffix is b64(mhEnc(H(algs[0],JCS(suffixData)),algs[0])) behind a non-empty-algorithm guard; ParseOperation stores ID = namespace + \":\" + suffix; outside batch mode acceptance lies behind IsValidModelMultihash(schema.Delta, schema.SuffixData.DeltaHash) on the same decoded request. Not decided: collision resistance; that Transform implements JCS (C05). (E1) ValidateSuffixData / ValidateDelta are read-only: nothing reachable from their inputs is written before hashing. (K2) the JSON member names and omitempty options of the create-side models are the wire format's (closed table). The parser and the applier never assign a protocol parameter (C03.K1). Nothing is stored into the decoded request after decoding. C07.K1's sink rule for MultihashAlgorithms runs here."}
+	props["C03"] = &propDef{run: runC03, explanation: "Structural clause of C03 decided statically: in ParseCreateOperation the returned unique suffix is GetUniqueSuffix applied to the very suffix-data object that was decoded from the request (json.Unmarshal target, hence independent of member order and whitespace), validated and stored in the model; the success term of GetUniqueSuffix is b64(mhEnc(H(algs[0],JCS(suffixData)),algs[0])) behind a non-empty-algorithm guard; ParseOperation stores ID = namespace + \":\" + suffix; outside batch mode acceptance lies behind IsValidModelMultihash(schema.Delta, schema.SuffixData.DeltaHash) on the same decoded request. Not decided: collision resistance; that Transform implements JCS (C05). (E1) ValidateSuffixData / ValidateDelta are read-only: nothing reachable from their inputs is written before hashing. (K2) the JSON member names and omitempty options of the create-side models are the wire format's (closed table). The parser and the applier never assign a protocol parameter (C03.K1). Nothing is stored into the decoded request after decoding. C07.K1's sink rule for MultihashAlgorithms runs here. The namespace of an id is the text before its last ':'."}
 	props["C06"] = &propDef{run: runC06, explanation: "Structural clause of C06 decided statically: success terms of CalculateModelMultihash, CalculateID, GetMultihash, GetMultihashCode and the encoder equal the documented normal forms (b64 = base64.RawURLEncoding in both directions); IsValidModelMultihash recomputes with the code decoded from the supplied hash over the supplied model and accepts only on the false edge of computed != supplied, with decode errors propagated; IsComputedUsingMultihashAlgorithms returns true only behind a successful decode and an equality between the decoded code and one of the supplied codes; the hash leaf contracts (code table with error default, single Write, Sum(nil)). Not decided: 'equal iff JSON values equal' beyond this shape (needs JCS injectivity and collision resistance). GetMultihash / GetMultihashCode refuse only what the base64 / multihash decoders refuse."}
 }
 
@@ -220,7 +221,24 @@ func runC03(c *Ctx) {
 	wantT := "b64(mhEnc(H(index($1,0),JCS($0)),index($1,0)))"
 	c.Check("C03.P2", "GetUniqueSuffix:term", termIs(tt, wantT), gus.Pos(), "suffix(suffixData, algs) = "+t+" (expected "+wantT+")")
 	c.CheckGuard("C03.P2", "GetUniqueSuffix:non-empty-algorithms", gus, nil, cmpReject("len(algs) == 0 rejected", token.EQL, pathIs("len($1)"), pathIs("0")))
-	c.Min("C03.P2", 2)
+	// "namespace, colon, suffix": what GetNamespaceFromID hands back for a DID is the text before its LAST ':' — the
+	// counterpart of CalculateID's namespace + ":" + suffix for a namespace of any number of segments
+	if gn := c.Fn("docutil", "GetNamespaceFromID"); gn != nil {
+		c.Analysed(gn)
+		okN := len(successReturns(gn)) > 0
+		var got []string
+		for _, r := range successReturns(gn) {
+			p := c.Path(returnedValue(r, 0), nil)
+			got = append(got, p)
+			if !beforeLastColon.MatchString(p) {
+				okN = false
+			}
+		}
+		c.Check("C03.P2", "GetNamespaceFromID:before-last-colon", okN, gn.Pos(), fmt.Sprintf("the namespace of an id is the text before its last ':' (returns %v)", got))
+	} else {
+		c.Unresolved("C03.P2", "docutil.GetNamespaceFromID")
+	}
+	c.Min("C03.P2", 3)
 
 	// ---- E1 validation is read-only: the suffix and the hashes are computed from the decoded request after it was
 	// validated — a validator that rewrites a member (normalises, trims, defaults) changes what is hashed, so two
@@ -496,10 +514,22 @@ func (c *Ctx) isValidModelMultihashContract(rule string) {
 		c.Unresolved(rule, "hashing.IsValidModelMultihash / CalculateModelMultihash / GetMultihashCode")
 		return
 	}
-	codePath := "hashing.GetMultihashCode($1)#0"
-	c.CheckGuard(rule, "IsValidModelMultihash:code-from-supplied-hash", ivm, nil, callTo("GetMultihashCode(modelMultihash)", gmc, pathIs("$1")))
+	// (the code read through GetMultihashCode, or taken from the multihash GetMultihash decodes — which is what
+	// GetMultihashCode itself does)
+	codePaths := []string{"hashing.GetMultihashCode($1)#0"}
+	decodeOK := callTo("GetMultihashCode(modelMultihash)", gmc, pathIs("$1"))
+	if gm := c.Fn("hashing", "GetMultihash"); gm != nil {
+		codePaths = append(codePaths, "hashing.GetMultihash($1)#0.Code")
+		decodeOK = anyOf("GetMultihashCode(modelMultihash) / GetMultihash(modelMultihash)", decodeOK, callTo("GetMultihash(modelMultihash)", gm, pathIs("$1")))
+	}
+	c.CheckGuard(rule, "IsValidModelMultihash:code-from-supplied-hash", ivm, nil, decodeOK)
 	recomputed := func(s string) bool {
-		return s == "hashing.CalculateModelMultihash($0,conv<uint>("+codePath+"))#0"
+		for _, codePath := range codePaths {
+			if s == "hashing.CalculateModelMultihash($0,conv<uint>("+codePath+"))#0" {
+				return true
+			}
+		}
+		return false
 	}
 	c.CheckGuard(rule, "IsValidModelMultihash:recompute", ivm, nil, &GCheck{Name: "CalculateModelMultihash(model, code of supplied hash)", MatchCall: func(c *Ctx, call *ssa.Call, env Env) bool {
 		return call.Call.StaticCallee() == cmm && recomputed(c.Path(call, env)+"#0")
@@ -655,3 +685,5 @@ func (c *Ctx) decodedRequestUnmodifiedRule(rule, key string, f *ssa.Function, sr
 	}
 	c.Check(rule, key+":decoded-request-not-modified", len(bad) == 0 && n >= 1, f.Pos(), "nothing is stored into the decoded request after decoding", bad...)
 }
+
+var beforeLastColon = regexp.MustCompile(`^\$0\[(0)?:strings\.LastIndex(Byte)?\(\$0,(":"|58)\)\]$`)
